@@ -413,7 +413,58 @@ func mutate(r *rng.R, a regionJ, stores []storeJ, malformed bool) regionJ {
 	return b
 }
 
+// fitting stream: the rule list is written for region A (counts = voters / learners present, constraints
+// every store satisfies), so that satisfied fits and ties between equally good assignments are frequent
+func genFitting(r *rng.R) caseJ {
+	c := caseJ{Stream: "fitting"}
+	n := 3 + r.Intn(4)
+	for i := 0; i < n; i++ {
+		c.Stores = append(c.Stores, storeJ{ID: uint64(i + 1), Labels: [][2]string{
+			{"zone", valsOf["zone"][r.Intn(3)]}, {"host", fmt.Sprintf("h%d", i+1)}}})
+	}
+	c.A = genRegion(r, c.Stores, false)
+	voters, learners := 0, 0
+	for i := range c.A.Peers {
+		if c.A.Peers[i].Role >= 2 {
+			c.A.Peers[i].Role = 0
+		}
+		if c.A.Peers[i].Role == 1 {
+			learners++
+		} else {
+			voters++
+		}
+	}
+	locs := keysLoc[:0:0]
+	if r.Pct(70) {
+		locs = []string{"zone", "host"}
+	}
+	var anyCons []consJ
+	if r.Pct(30) {
+		anyCons = []consJ{{Key: "zone", Op: "exists"}}
+	}
+	switch {
+	case voters >= 2 && r.Pct(45):
+		c.Rules = append(c.Rules, ruleJ{Role: "leader", Count: 1, Cons: anyCons}, ruleJ{Role: "follower", Count: voters - 1, Locs: locs})
+	case voters >= 2 && r.Pct(40):
+		k := 1 + r.Intn(voters-1)
+		c.Rules = append(c.Rules, ruleJ{Role: "voter", Count: k, Locs: locs}, ruleJ{Role: "voter", Count: voters - k, Cons: anyCons, Locs: locs})
+	case voters >= 1:
+		c.Rules = append(c.Rules, ruleJ{Role: "voter", Count: voters, Cons: anyCons, Locs: locs})
+	}
+	if learners > 0 {
+		c.Rules = append(c.Rules, ruleJ{Role: "learner", Count: learners, Locs: locs})
+	}
+	if len(c.Rules) == 0 {
+		c.Rules = append(c.Rules, ruleJ{Role: "voter", Count: 1})
+	}
+	c.B = mutate(r, c.A, c.Stores, false)
+	return c
+}
+
 func genCase(r *rng.R) caseJ {
+	if r.Pct(22) {
+		return genFitting(r)
+	}
 	malformed := r.Pct(12)
 	c := caseJ{Stream: "valid"}
 	if malformed {
@@ -476,13 +527,26 @@ type outcome struct {
 func run(R *res.Result, c caseJ) outcome {
 	ss := mkStores(c.Stores)
 	rules := mkRules(c.Rules)
-	fa := placement.FitRegion(ss, mkRegion(c.A), rules)
-	fb := placement.FitRegion(ss, mkRegion(c.B), rules)
+	fit := func(r regionJ) (f *placement.RegionFit) {
+		defer func() {
+			if e := recover(); e != nil {
+				R.Violate("C12:fit-region-panicked", fmt.Sprintf("placement.FitRegion panicked: %v", e), c)
+				f = &placement.RegionFit{}
+			}
+		}()
+		return placement.FitRegion(ss, mkRegion(r), rules)
+	}
+	fa, fb := fit(c.A), fit(c.B)
 	oa, ob := observe(R, fa), observe(R, fb)
 	ab, ba := 0, 0
-	if oa.Sat >= 0 && ob.Sat >= 0 { // no nil RuleFit inside
+	func() {
+		defer func() {
+			if e := recover(); e != nil {
+				R.Violate("C12:compare-region-fit-panicked", fmt.Sprintf("placement.CompareRegionFit panicked: %v", e), c)
+			}
+		}()
 		ab, ba = placement.CompareRegionFit(fa, fb), placement.CompareRegionFit(fb, fa)
-	}
+	}()
 	txt := "Case " + c.coqInputs() + "\n  " + oa.Coq + "\n  " + ob.Coq + " " + coqfmt.Z(int64(ab)) + " " + coqfmt.Z(int64(ba))
 	nt := len(c.Rules) >= 2 && oa.NPeer > 0 && (oa.Orph > 0 || oa.Diff > 0 || oa.Score)
 	return outcome{"(" + txt + ")", nt, oa, ob, ab, ba}
@@ -501,7 +565,7 @@ func main() {
 
 	R := res.New("C12", *seed, *tier)
 	R.Rule = "inputs = (1..7 labelled stores, 0..4 rules with role/count/label constraints/location labels, region A of 1..6 peers, " +
-		"neighbour region B); streams: valid 88% / malformed 12% (missing store, unknown role or operator, count 0, no rule, learner leader) " +
+		"neighbour region B); streams: fitting 22% (rules written for region A), of the rest valid 88% / malformed 12% (missing store, unknown role or operator, count 0, no rule, learner leader) " +
 		"plus the systematic grid stream (<= 3 rules x <= 4 peers x 2 label levels on a fixed 4-store layout, strided by the seed); non-trivial = at least 2 rules, some peer placed in a rule, and an orphan or a " +
 		"role mismatch or a positive isolation score; distinct by sha256 of the canonical Coq text of inputs and answers"
 	cf := &coqfmt.CaseFile{Dir: *out, Prefix: "C12", PerFile: 250,
